@@ -88,7 +88,7 @@ pub fn exec(op: &str, a: &[&str]) -> Option<String> {
         }
         // c16.num <n> <flags>
         "c16.num" => {
-            let n: i32 = a[0].parse().unwrap(); let flags: u32 = a[1].parse().unwrap();
+            let (Ok(n), Ok(flags)) = (a[0].parse::<i32>(), a[1].parse::<u32>()) else { return Some("bad-request".into()) };
             let mut s = Script::new();
             if let Err(e) = s.append_num(n) { return Some(err_class(&e)); }
             let mut chk = Scripted::parse("-:t:t");
@@ -238,7 +238,7 @@ pub fn gen(tier: &str, rng: &mut Rng, out: &mut Vec<String>) {
     }
     for _ in 0..(if thorough { 20_000 } else { 1_500 }) { out.push(format!("c16.num {} {}", i32_pool(rng), rng.below(2))); }
     // integer literals of the script sources (and their neighbours) as pushed numbers, both signs, and as push lengths
-    for v in crate::harvest::ints(&["script/mod.rs", "script/stack.rs", "transaction/p2pkh.rs"], 1 << 31) {
+    for v in crate::harvest::ints(&["script/mod.rs", "script/stack.rs", "transaction/p2pkh.rs"], i32::MAX as u64) {   // append_num takes an i32
         out.push(format!("c16.num {} 0", v)); out.push(format!("c16.num -{} 1", v));
         if v <= 70_000 { out.push(format!("c16.push {} 0", data_spec(rng, v as usize))); }
     }
